@@ -52,7 +52,7 @@ func (as *AtomSet) Add(entry Atom) {
 		if itemkey == key {
 			return
 		}
-		if itemkey < key {
+		if itemkey < key && insertPos < 0 {
 			insertPos = i
 		}
 	}
